@@ -137,7 +137,8 @@ class ExprMixin:
             return VStr(z3.If(ValSort.is_S(t), ValSort.sv(t), z3.If(ValSort.is_I(t), int_to_str(ValSort.iv(t)), f(t))))
         if isinstance(v, VOpaque):
             self.ufs_used.add(f"str({v.ty.name})")
-            f = z3.Function(f"str.of_{v.ty.name}", v.ty.sort(), z3.StringSort())
+            nm = {"Path": "uf.path_str"}.get(v.ty.name, f"str.of_{v.ty.name}")
+            f = z3.Function(nm, v.ty.sort(), z3.StringSort())
             return VStr(f(v.t))
         if isinstance(v, VExc):
             return self.str_of(v.msg) if v.msg is not None else VStr("")
@@ -362,6 +363,8 @@ class ExprMixin:
         if isinstance(container, VRec) and container.ty.as_dict:
             ci = concrete_of(item)
             if ci is not NOCONST:
+                if getattr(container.ty, "optkeys", False) and isinstance(container.fields.get(ci), VOpt):
+                    return z3.Not(container.fields[ci].isnone)
                 return z3.BoolVal(ci in container.fields)
             return z3.Or([eq(item, lift(k)) for k in container.fields]) if container.fields else z3.BoolVal(False)
         if isinstance(container, VDict):
@@ -528,7 +531,11 @@ class ExprMixin:
         ck = concrete_of(key)
         if isinstance(obj, VRec):
             if ck is not NOCONST and ck in obj.fields:
-                return obj.fields[ck]
+                fv = obj.fields[ck]
+                if getattr(obj.ty, "optkeys", False) and isinstance(fv, VOpt):
+                    self.maybe_raise(z3.Not(fv.isnone), "KeyError", lineno)
+                    return fv.val
+                return fv
             if ck is not NOCONST and obj.ty.as_dict:
                 raise RaiseSig(VExc("KeyError", key))
             raise Unsupported(f"subscript {key} on record {obj.ty.name}")
@@ -547,6 +554,10 @@ class ExprMixin:
                 n = len(obj.items)
                 if -n <= ck < n:
                     return obj.items[ck]
+                if self.spec_depth > 0 or self.merge_depth > 0:
+                    ety = getattr(obj, "elem", None)
+                    if ety is not None:
+                        return ety.fresh("unspecified")  # out-of-range read in contract text: arbitrary value
                 raise RaiseSig(VExc("IndexError"))
             if isinstance(obj, VTuple):
                 raise Unsupported("symbolic index into tuple")
@@ -557,7 +568,8 @@ class ExprMixin:
             i = coerce(key, Int).t
             n = z3.Length(obj.seq)
             self.maybe_raise(z3.And(i >= -n, i < n), "IndexError", lineno)
-            v = obj.elem.wrap(obj.seq[self._norm_index(i, n)])
+            idx = i if (ck is not NOCONST and isinstance(ck, int) and ck >= 0) else self._norm_index(i, n)
+            v = obj.elem.wrap(obj.seq[idx])
             self.on_element(obj, v)
             return v
         if isinstance(obj, VStr):
